@@ -186,7 +186,114 @@ def specs(prop='C17'):
             ctx.prove(f'{pre}.merge.pops_one[{label}]', eq(depth(st), D))
             ctx.prove(f'{pre}.merge.is_union_of_tags[{label}]', dict(r) == {f'k{i}': i for i in range(case['n'])})
 
+    # ---------------------------------------------------------------------------------------------------------------
+    def run_quantifier(ctx, case, loc, pre, label):
+        """_match__inside_list_quantifier: whatever the quantifier bounds, greediness and the number of attempts, a failed
+        match leaves the target cursor at its entry position and the tag stack at its entry depth; a successful one leaves
+        the tag stack balanced.  Callees under contracts: _match__inside_list by the contract proved above (on failure its
+        cursors are where they were when it was called; depth preserved), per-class match functions (depth preserved)."""
+        it = Interp({})
+        it.globals.update(globals_(it))
+        pat_it, P0, PL = mk_iter(it, ctx, 'pat_iter')
+        tgt, T0, TL = mk_iter(it, ctx, 'tgt_iter')
+        st, D = mk_state(it, ctx)
+        st._set('is_FST', False, count=False)
+        qmin, qmax = ctx.int('q_min'), ctx.int('q_max')
+        ctx.assume(and_(0 <= qmin, qmin <= qmax))
+
+        class Bag:
+            """tagss / matches: an opaque collection (content irrelevant to the rewind / balance obligations)"""
+
+            def append(self, x):
+                pass
+
+            def insert(self, i, x):
+                pass
+
+            def _sym_delitem(self, i):
+                pass
+        bag_states = []
+        real_new = st._get('new_tagss')
+
+        def new_tagss():
+            real_new()
+            b = Bag()
+            bag_states.append(b)
+            return b
+        st._set('new_tagss', new_tagss, count=False)
+        real_discard = st._get('discard_tagss')
+        # pop_merge_tagss by its contract (proved separately): pops exactly one tag list, returns a mapping
+        st._set('pop_merge_tagss', lambda: (real_discard(), {'merged': 1})[1], count=False)
+        sublist = case['sublist']
+        q_pat = [SObj('qp0', {})] if sublist else SObj('q_pat', {}, **{'__class__': SObj('cls', {})})
+        pat = SObj('MQ', {}, pat=q_pat, min=qmin, max=(None if case['unbounded'] else qmax), pat_tag=case['tag'],
+                   greedy=case['greedy'], static_tags=({'s': 1} if case['static'] else None))
+
+        def move_tgt():
+            v = ctx.int(ctx.fresh_name('tgt.idx_after_callee'))
+            ctx.assume(and_(0 <= v, v <= TL))
+            tgt._set('idx', v, count=False)
+
+        def inside_list(mstate, p_it, t_it, allow_partial=False):
+            before = t_it._get('idx')
+            ok = choose('inner_match', 2)
+            if ok:
+                move_tgt() if t_it is tgt else None
+                return {'t': 1}
+            t_it._set('idx', before, count=False)     # contract: rewinds on failure
+            return None
+
+        class MatchFuncs:
+            def get(self, cls, default=None):
+                return lambda p, t, mstate: [None, EMPTY, {'tag': 1}][choose('elem_match', 3)]
+        it.globals.update({'_match__inside_list': inside_list, '_MATCH_FUNCS': MatchFuncs(),
+                           '_match_default': SObj('_match_default', {}), 'FSTMatch': lambda *a: ('FSTMatch',) + a,
+                           'FSTView': SObj('FSTView', {}), 'MatchError': IndexError, 'bool': bool})
+        it.globals['isinstance'] = lambda o, t: isinstance(o, list) if t is it.globals.get('list') else False
+        ml = frontend.locate('match:_MatchList')
+        it.globals['_MatchList'] = lambda seq: mk_iter(it, ctx, 'qpat_iter')[0]
+
+        class TgtSeq:
+            def _sym_truth(self):
+                return truth(TL > 0)
+
+            def _sym_getitem(self, i):
+                if isinstance(i, slice):
+                    return ['slice']
+                return SObj('tgt_elem', {})
+        tgt._set('seq', TgtSeq(), count=False)
+
+        class IdxHavoc:
+            def havoc(self, tag):
+                v = ctx.int(ctx.fresh_name(f'{tag}.tgt.idx'))
+                tgt._set('idx', v, count=False)
+
+        def inv(k, env):
+            return {'tag_stack_depth': eq(depth(st), D + 1), 'saved_position': eq(env['tgt_idx_saved'], T0)}
+        import ast as _ast
+        for k_, lp in enumerate(frontend.loops_of(loc.node)):
+            if not isinstance(lp, _ast.While):
+                continue        # `for count_to in counts`: a concrete tuple of one or two bounds, unrolled
+            it.loop_specs[('_match__inside_list_quantifier', k_)] = LoopSpec(
+                f'{prop}.quantifier.loop{k_}', inv, havoc_objs=lambda env: [IdxHavoc()],
+                kinds={'m': lambda: None, 'count': 'int', 'matches_ins_idx': 'int'})
+        it.empty_list_factory = Bag
+        f = IFunc(it, loc.node, None, '_match__inside_list_quantifier')
+        r = it.call(f, (st, pat_it, tgt, pat, case['partial']))
+        ctx.notes['outcome'] = 'return'
+        ctx.prove(f'{pre}.tag_stack_balanced[{label}]', eq(depth(st), D))
+        if r is None:
+            ctx.prove(f'{pre}.fail.rewinds_target_cursor[{label}]', eq(tgt._get('idx'), T0))
+        else:
+            ctx.prove(f'{pre}.success.returns_mapping[{label}]', isinstance(r, dict))
+
+    bools = (False, True)
+    qcases = [dict(greedy=g, tag=t, static=s_, sublist=sl, unbounded=u, partial=False)
+              for g in bools for t in (None, 'T') for s_ in bools for sl in bools for u in bools]
     return [
+        Fragment('match:_match__inside_list_quantifier', prop, 'quantifier', qcases, run_quantifier, min_obligations=2,
+                 native=('k_match', 'replay_match'),
+                 notes='loop invariants: tag stack depth and saved cursor; tag collections opaque; callees under contracts'),
         Fragment('match:_match__inside_list', prop, 'inside_list', [dict(allow_partial=a) for a in (False, True)],
                  run_inside_list, min_obligations=3, native=('k_match', 'replay_match'),
                  notes='loop invariant over the pattern cursor; callees under assumed contracts (result kinds, cursor '
